@@ -19,6 +19,9 @@ def run(F, X, rep):
     E.g_hash_gate(C, rep, "C10-H")
     E.s_signature_gate(C, rep, "C10-S")
     E.a_amount_table(C, rep, "C10-A")
+    # "a well-formed accompanying amount field must agree": the field must be found wherever the sender put it
+    H.g1_lookup_by_type(C, rep, "C10-L")
+    E.x_info_built_from_request(C, rep, "C10-X")
     if H.need_hh(C, rep, "C10-R"):
         E.r_self_route_hint(C, rep, "C10-R")
         H.n2_forward_classification(C, rep, "C10-C")
